@@ -233,6 +233,7 @@ class ReaderHarness(object):
         I = Interp(self.P, **ikw)
         I.open_empty_class_containers = getattr(self, 'open_hooks', ())
         I.record_compares = getattr(self, 'record_compares', False)
+        I.record_reads = getattr(self, 'record_reads', False)
         st = {'k': 0, 'script': script, 'content_calls': [], 'header_values': []}
         I.k1 = st
         header_rxs = {rx for _, rx in R.header_apps}
@@ -357,8 +358,15 @@ class ReaderHarness(object):
             obj = self.make_reader(I)
             I.frames = []
             return I.call_function(entry, [obj], {}, None, self_cls=self.R.cls)
+        unlocked = 0
         for path in I.explore(thunk):
             if det_prefix and not path.reached_lock:
+                unlocked += 1
+                if unlocked > 1500:
+                    # no way through the history among the first 1500 attempts: the caller decides (shorter
+                    # histories freeze quickly) whether the history is rejected by the code or the analysis gives up
+                    I.budget_exceeded = True
+                    return
                 continue
             yield I, path
 
